@@ -108,12 +108,14 @@ class TemplateWriter(IWriter):
             # To not break old links we also create a symlink from the full module name to the index.html
             # file. This is also good for consistency: every module is accessible by <full module name>.html
             root_module_path = (self.build_directory / (list(system.root_names)[0] + '.html'))
-            try:
-                root_module_path.unlink()
-                # not using missing_ok=True because that was only added in Python 3.8 and we still support Python 3.6
-            except FileNotFoundError:
-                pass
-            root_module_path.symlink_to('index.html')
+            if root_module_path.name != 'index.html':
+                # (a root module named 'index' is already where its full name says)
+                try:
+                    root_module_path.unlink()
+                    # not using missing_ok=True because that was only added in Python 3.8 and we still support Python 3.6
+                except FileNotFoundError:
+                    pass
+                root_module_path.symlink_to('index.html')
 
     def _writeDocsFor(self, ob: model.Documentable) -> None:
         if not ob.isVisible:
